@@ -86,6 +86,18 @@ func baseSteps() []func() *pipeline.CommandStep {
 				Matrix:  &pipeline.Matrix{Setup: pipeline.MatrixSetup{"": {"a", "b"}}},
 			}
 		},
+		// leftover (inline) fields of the matrix and of an adjustment named like their signed fields
+		func() *pipeline.CommandStep {
+			return &pipeline.CommandStep{
+				Command: "c",
+				Matrix: &pipeline.Matrix{
+					Setup: pipeline.MatrixSetup{"os": {"linux", "mac"}, "arch": {"amd64"}},
+					Adjustments: pipeline.MatrixAdjustments{{With: pipeline.MatrixAdjustmentWith{"os": "windows", "arch": "arm"}, Skip: true,
+						RemainingFields: map[string]any{"with": map[string]any{"os": "inline"}, "skip": "inline", "soft_fail": true}}},
+					RemainingFields: map[string]any{"setup": "see docs", "adjustments": "none", "other": 1},
+				},
+			}
+		},
 	}
 }
 
@@ -144,6 +156,9 @@ func mutations() []mutation {
 		}},
 		{"matrix-skip", true, func(s *pipeline.CommandStep, _ map[string]string, _ *string, _ *pipeline.Signature) {
 			s.Matrix.Adjustments[0].Skip = false
+		}},
+		{"matrix-adjustment-with", true, func(s *pipeline.CommandStep, _ map[string]string, _ *string, _ *pipeline.Signature) {
+			s.Matrix.Adjustments[0].With["os"] = "plan9"
 		}},
 		{"matrix-removed", true, func(s *pipeline.CommandStep, _ map[string]string, _ *string, _ *pipeline.Signature) { s.Matrix = nil }},
 		{"repo-url", true, func(_ *pipeline.CommandStep, _ map[string]string, u *string, _ *pipeline.Signature) { *u += "/" }},
@@ -295,10 +310,8 @@ func TestC01(t *testing.T) {
 				url2 := url
 				sig2 := *sig
 				sig2.SignedFields = append([]string{}, sig.SignedFields...)
-				snapshot := func() string {
-					b, _ := json.Marshal([]any{s2, env2, url2, sig2})
-					return string(b) + fmt.Sprintf("|%v|%v|%v", s2.Env == nil, s2.Plugins == nil, s2.Matrix == nil)
-				}
+				// (a structural dump, not json.Marshal: the marshalers are part of what is being checked)
+				snapshot := func() string { return dump(reflect.ValueOf([]any{s2, env2, url2, sig2})) }
 				before := snapshot()
 				applicable := func() (ok bool) {
 					defer func() {
@@ -561,6 +574,44 @@ func TestC14(t *testing.T) {
 		}
 		seen[name] = p
 	}
+	// leftover fields named like the matrix's own fields never stand in for them: matrices that differ
+	// in the real setup / with / skip differ in the payload whatever the leftovers say (a shadowed
+	// leftover itself is invisible in every serialisation, so it may collide with its absence)
+	shadow := map[string]variant{
+		"matrix-shadow-setup-1": func(s *pipeline.CommandStep, _ map[string]string, _ *string) {
+			s.Matrix.RemainingFields = map[string]any{"setup": "see docs", "adjustments": "none"}
+		},
+		"matrix-shadow-setup-2": func(s *pipeline.CommandStep, _ map[string]string, _ *string) {
+			s.Matrix.RemainingFields = map[string]any{"setup": "see docs", "adjustments": "none"}
+			s.Matrix.Setup["os"] = append(s.Matrix.Setup["os"], "windows")
+		},
+		"matrix-shadow-with-1": func(s *pipeline.CommandStep, _ map[string]string, _ *string) {
+			s.Matrix.Adjustments[0].RemainingFields = map[string]any{"with": map[string]any{"os": "inline"}, "skip": "inline", "soft_fail": true}
+		},
+		"matrix-shadow-with-2": func(s *pipeline.CommandStep, _ map[string]string, _ *string) {
+			s.Matrix.Adjustments[0].RemainingFields = map[string]any{"with": map[string]any{"os": "inline"}, "skip": "inline", "soft_fail": true}
+			s.Matrix.Adjustments[0].With = pipeline.MatrixAdjustmentWith{"os": "plan9", "arch": "arm"}
+		},
+		"matrix-shadow-with-3": func(s *pipeline.CommandStep, _ map[string]string, _ *string) {
+			s.Matrix.Adjustments[0].RemainingFields = map[string]any{"with": map[string]any{"os": "inline"}, "skip": "inline", "soft_fail": true}
+			s.Matrix.Adjustments[0].Skip = "another reason"
+		},
+	}
+	seenShadow := map[string]string{}
+	for name, v := range shadow {
+		s, e := base()
+		u := "url"
+		v(s, e, &u)
+		p := payloadOf(t, kp.signer, s, e, u)
+		cases++
+		for other, q := range seenShadow {
+			if p == q && name[:len(name)-1] == other[:len(other)-1] {
+				failures++
+				t.Errorf("payload collision between %q and %q", name, other)
+			}
+		}
+		seenShadow[name] = p
+	}
 	fmt.Printf("BOUNDED name=c14-payloads cases=%d failures=%d\n", cases, failures)
 }
 
@@ -688,7 +739,115 @@ func TestC06(t *testing.T) {
 			}
 		}
 	}
+	// near-twin steps in one call (some inside a group): steps that are equal, or that differ only
+	// where a flattened rendering (joined with newlines, "=", commas or NULs) cannot see it. Each must
+	// carry its own verifying signature over its own field list.
+	twins := func() pipeline.Steps {
+		g := "g"
+		mk := func(cmd string, env map[string]string, plugins pipeline.Plugins, m *pipeline.Matrix) *pipeline.CommandStep {
+			return &pipeline.CommandStep{Command: cmd, Env: env, Plugins: plugins, Matrix: m}
+		}
+		inner := pipeline.Steps{
+			mk("make", map[string]string{"CFLAGS": "-O2", "DEPLOY": "1"}, nil, nil),
+			mk("make", map[string]string{"A": "B=c"}, nil, nil),
+			mk("a", map[string]string{"b": ""}, nil, nil),
+			mk("x", nil, pipeline.Plugins{{Source: "docker#v1", Config: map[string]any{"a": "1"}}}, nil),
+			mk("x", nil, nil, &pipeline.Matrix{Setup: pipeline.MatrixSetup{"os": {"a,b"}}}),
+			mk("same", map[string]string{"K": "v"}, nil, nil),
+			mk("make", nil, nil, nil),
+		}
+		return pipeline.Steps{
+			mk("make", map[string]string{"CFLAGS": "-O2\nDEPLOY=1"}, nil, nil),
+			mk("make", map[string]string{"A=B": "c"}, nil, nil),
+			mk("a\x00b", nil, nil, nil),
+			mk("x", nil, pipeline.Plugins{{Source: "docker#v1", Config: map[string]any{"a": 1}}}, nil),
+			mk("x", nil, nil, &pipeline.Matrix{Setup: pipeline.MatrixSetup{"os": {"a", "b"}}}),
+			mk("same", map[string]string{"K": "v"}, nil, nil),
+			mk("make", map[string]string{"P": "v"}, nil, nil),
+			&pipeline.GroupStep{Group: &g, Steps: inner},
+		}
+	}
+	for _, kp := range kps {
+		steps := twins()
+		env := map[string]string{"P": "v", "DEPLOY": "1", "A": "z"}
+		cases++
+		if err := signature.SignSteps(ctx, steps, kp.signer, "repo", signature.WithEnv(env)); err != nil {
+			failures++
+			t.Errorf("%s: near-twin steps: %v", kp.name, err)
+			continue
+		}
+		walk(steps, func(c *pipeline.CommandStep) {
+			cases++
+			if c.Signature == nil {
+				failures++
+				t.Errorf("%s: near-twin step %q env %v is unsigned", kp.name, c.Command, c.Env)
+				return
+			}
+			want := []string{"command", "env", "matrix", "plugins", "repository_url"}
+			for k := range env {
+				if _, shadowed := c.Env[k]; !shadowed {
+					want = append(want, "env::"+k)
+				}
+			}
+			sort.Strings(want)
+			if !reflect.DeepEqual(c.Signature.SignedFields, want) {
+				failures++
+				t.Errorf("%s: near-twin step %q env %v: signed fields %v, want %v", kp.name, c.Command, c.Env, c.Signature.SignedFields, want)
+			}
+			if err := signature.Verify(ctx, c.Signature, kp.verifier, &signature.CommandStepWithInvariants{CommandStep: *c, RepositoryURL: "repo"}, signature.WithEnv(env)); err != nil {
+				failures++
+				t.Errorf("%s: near-twin step %q env %v: signature does not verify: %v", kp.name, c.Command, c.Env, err)
+			}
+		})
+	}
 	fmt.Printf("BOUNDED name=c06-trees cases=%d failures=%d\n", cases, failures)
 }
 
 var _ jwk.Key
+
+// dump renders a value structurally (pointers followed, map keys sorted, nil kept apart from empty).
+func dump(v reflect.Value) string {
+	switch v.Kind() {
+	case reflect.Invalid:
+		return "<invalid>"
+	case reflect.Pointer, reflect.Interface:
+		if v.IsNil() {
+			return "nil"
+		}
+		return "&" + dump(v.Elem())
+	case reflect.Struct:
+		var sb strings.Builder
+		sb.WriteString(v.Type().Name() + "{")
+		for i := 0; i < v.NumField(); i++ {
+			sb.WriteString(v.Type().Field(i).Name + ":" + dump(v.Field(i)) + ",")
+		}
+		return sb.String() + "}"
+	case reflect.Map:
+		if v.IsNil() {
+			return "nil-map"
+		}
+		var parts []string
+		for _, k := range v.MapKeys() {
+			parts = append(parts, dump(k)+"=>"+dump(v.MapIndex(k)))
+		}
+		sort.Strings(parts)
+		return "map[" + strings.Join(parts, ",") + "]"
+	case reflect.Slice:
+		if v.IsNil() {
+			return "nil-slice"
+		}
+		fallthrough
+	case reflect.Array:
+		var parts []string
+		for i := 0; i < v.Len(); i++ {
+			parts = append(parts, dump(v.Index(i)))
+		}
+		return "[" + strings.Join(parts, ",") + "]"
+	case reflect.String:
+		return fmt.Sprintf("%q", v.String())
+	}
+	if v.CanInterface() {
+		return fmt.Sprintf("%v", v.Interface())
+	}
+	return fmt.Sprintf("%v", v)
+}
